@@ -90,10 +90,11 @@ pub fn fnv_bytes(bytes: &[u8]) -> u64 {
 pub fn execute(job: &Job) -> Report {
     let t0 = std::time::Instant::now();
     let base = mix(mix(job.seed, prop_hash(&job.prop)), job.run);
+    let wbase = mix(mix(job.seed, prop_hash(&job.prop)), families::workload_run(&job.prop, job.run));
     let (mut wt, st, ft) = match &job.tapes {
         Some(t) => (Tape::replay(t.w.clone()), Tape::replay(t.s.clone()), Tape::replay(t.f.clone())),
         None => (
-            Tape::generate(mix(base, 1)),
+            Tape::generate(mix(wbase, 1)),
             Tape::generate(mix(base, 2)),
             Tape::generate(mix(base, 3)),
         ),
